@@ -40,6 +40,7 @@ func runC30(p *Prog, r *Result) {
 	r.Rule("R30d", "Run calls Reset only under !didReset and calls fillExpandConfig (which always reaches updateExpandOpts) before executing the node", 2)
 	r.Rule("R30f", "storage aliased by a first-reset snapshot (Params and origParams share one backing array) is never written in place: SSA ownership rule of C27 restricted to those fields", 0)
 	r.Rule("R30g", "every successful return of overlayEnviron.Set is preceded on every path by a store into the overlay's values (value or unset tombstone): Run publishes Runner.Vars additively from Each", 2)
+	r.Rule("R30h", "Run stores, around the node it executes, only into per-Run bookkeeping or what Runner.stmt sets identically for every statement: state a statement leaves behind is not reset between Run calls", 3)
 	r.Rule("R30e", "every runtime write to the option table (store through a pointer into Runner.opts, indexed store, or applying a RunnerOption) reaches updateExpandOpts on every path to the function exit", 2)
 
 	runnerT := lookupType(pkg, "Runner")
@@ -574,6 +575,63 @@ func runC30(p *Prog, r *Result) {
 		})
 	}
 	_ = nE
+
+	// ---- R30h: Run does not reset what a statement can leave behind
+	// A whole-file run goes from one top-level statement to the next without passing through Run. A field that
+	// statements write (break/continue counts, the function depth, traps, …) and that Run stores into around the
+	// node is therefore either always equal to the stored value at a statement boundary (then the store is dead)
+	// or the two ways of running differ. The only accepted form is the one where Runner.stmt makes the very same
+	// assignment itself.
+	stmtFD := p.FuncDecl("interp", "Runner.stmt")
+	if stmtFD == nil {
+		r.Fatalf("interp.Runner.stmt not found")
+		return
+	}
+	stmtAssigns := map[string]bool{}
+	inspectNoLit(stmtFD.Body, func(n ast.Node) bool {
+		if as, ok := n.(*ast.AssignStmt); ok && len(as.Lhs) == 1 && len(as.Rhs) == 1 {
+			stmtAssigns[exprString(as.Lhs[0])+" = "+exprString(as.Rhs[0])] = true
+		}
+		return true
+	})
+	seenH := map[string]int{}
+	inspectNoLit(runFD.Body, func(n ast.Node) bool {
+		as, ok := n.(*ast.AssignStmt)
+		if !ok {
+			return true
+		}
+		for i, l := range as.Lhs {
+			fv := selectorField(info, l)
+			if fv == nil || fieldByName[fv.Name()] != fv {
+				continue
+			}
+			carried := ""
+			for _, w := range get(fv).runtime {
+				if w.fn != runFD && w.fn != resetFD && w.fn.Name.Name != "subshell" {
+					carried = funcKey("interp", w.fn)
+					break
+				}
+			}
+			rhs := "…"
+			if len(as.Rhs) == len(as.Lhs) {
+				rhs = exprString(as.Rhs[i])
+			}
+			key := fmt.Sprintf("interp.(Runner).Run#stores %s = %s", fv.Name(), rhs)
+			seenH[key]++
+			if seenH[key] > 1 {
+				key += fmt.Sprintf("#%d", seenH[key])
+			}
+			switch {
+			case carried == "":
+				r.OK("R30h", key, as.Pos(), "no code a statement runs writes this field: it is per-Run bookkeeping")
+			case stmtAssigns[exprString(l)+" = "+rhs]:
+				r.OK("R30h", key, as.Pos(), "Runner.stmt makes the same assignment for every statement of a whole-file run")
+			default:
+				r.Bad("R30h", key, as.Pos(), fmt.Sprintf("Run stores into %s, which statements also write (%s) and Runner.stmt does not set the same way: what a statement leaves in it reaches the next statement of a whole-file run but not the next Run call, so running a file one statement at a time differs", fv.Name(), carried))
+			}
+		}
+		return true
+	})
 }
 
 // firstResetBlock finds `if !r.didReset { … }` in Reset.
@@ -776,6 +834,8 @@ func enclosingStmt(body *ast.BlockStmt, e ast.Node) ast.Node {
 }
 
 var c30Controls = []Control{
+	{Name: "run-zeroes-break-count", Rule: "R30h", WantKey: "Run#stores breakEnclosing", File: "interp/api.go",
+		Mutate: ctlReplaceAnywhere("\tr.filename = \"\"\n\tswitch node := node.(type) {", "\tr.filename = \"\"\n\tr.breakEnclosing = 0\n\tswitch node := node.(type) {")},
 	{Name: "unset-without-tombstone", Rule: "R30g", WantKey: "overlayEnviron).Set#return nil", File: "interp/vars.go",
 		Mutate: ctlReplace("overlayEnviron.Set", "delete(o.values, normalized)", "delete(o.values, normalized)\n\t\tif o.parent == nil {\n\t\t\treturn nil\n\t\t}", 0)},
 	{Name: "shift-compacts-params-in-place", Rule: "R30f", WantKey: "Runner.Params", File: "interp/builtin.go",
